@@ -25,7 +25,7 @@ def check(R, F, P, cfg):
         for bi, b in enumerate(f.blocks):
             for s in b["stmts"]:
                 if s["k"] == "assign" and s["rv"]["k"] == "agg" and s["rv"].get("adt") == "weak::Weak":
-                    rootf = P.fns[f.root] if f.kind == "closure" else f
+                    rootf = site_root(P, f)
                     S = Super(P, rootf, opaque=DO - {rootf.npath})
                     for x in [y for y in S.nodes if y.ctx.fn is f and y.bb == bi]:
                         k += 1
